@@ -133,7 +133,11 @@ func wrun(args []string) error {
 			if i%10 == 9 {
 				sz *= 4
 			}
-			if err := do(g.Workload(fmt.Sprintf("r%d-%d", *seed, i), sz)); err != nil {
+			w := g.Workload(fmt.Sprintf("r%d-%d", *seed, i), sz)
+			if i%5 == 2 { // channels re-announced after messages that use them
+				w.Calls = g.Reannounce(w.Calls)
+			}
+			if err := do(w); err != nil {
 				return err
 			}
 		}
